@@ -969,6 +969,7 @@ def check(run: common.Run):
         corpus += fam2 if not quick else fam2[::2]
         fam3 = continued_literal_family()
         corpus += fam3 if not quick else fam3[::2]
+        corpus += prefix_family(quick)
         pr.record_frames = True
         n_e2e = 0
         post_seen, pitems, pinfo = set(), [], []
@@ -1053,6 +1054,10 @@ def check(run: common.Run):
                 continue
             rseen.add((f["original"], f["new"]))
             hist["restore:" + ("replaced" if f["replaced"] else "left-alone")] += 1
+            if f["mods_differ"]:
+                hist["restore:one-value-under-different-prefix-letters"] += 1
+            if f["prefix_changed"]:
+                hist["restore:written-under-another-prefix"] += 1
             if ast_key(f["out"], docs=False) != ast_key(f["new"], docs=False):
                 failing.append({"site": "processing._substitute_original_strings", "stage": "restore",
                                 "input": f["new"], "original": f["original"], "output": f["out"],
@@ -1092,8 +1097,9 @@ def check(run: common.Run):
             finfo.append(("frame", cur, ind if n > 0 else cur, n))
         add_files("frame", "list string * nat * list string * list string * list string", "frame_case_ok",
                   fitems, finfo, 150)
-        add_files("restore", "bool * list (nat * nat * bool) * list (nat * nat * bool) * list (list nat)",
-                  "restore_pick_case_ok", ritems2, rinfo2, 150)
+        add_files("restore", "bool * list (nat * nat * bool * list N * option nat) * list (nat * nat * bool * list N) "
+                             "* adjtab * list (option nat)",
+                  "restore_write_case_ok", ritems2, rinfo2, 150)
         fseen2, fritems, frinfo = set(), [], []
         for f in pr.frestores:
             if f is None or (f["original"], f["new"]) in fseen2:
@@ -1257,7 +1263,9 @@ def check(run: common.Run):
               f"scripts of length <= {3 if quick else 4} over 4 tags x 3 lines through a stand-in Differ, seeded "
               "random scripts, real difflib scripts. import spacing: ALL ordered pairs of 7 statement kinds x "
               "1..4 newlines x nesting, seeded sequences. quote restoration: every real call of "
-              "_substitute_original_strings during the sweep (incl. the f-string-fragment family) vs RestoreModel. "
+              "_substitute_original_strings during the sweep (incl. the f-string-fragment family and the prefix family: "
+              "every pair of spellings of one value under u / r / f / rf / b / rb prefixes, upper and lower case, both "
+              "quote styles, triple quotes) vs RestoreModel.restore_write, the exact text written compared. "
               "fix_line_lengths frame: every (range, indent, dedent, re-indent) seen during the sweep vs FrameModel. "
               "Non-trivial = the stage changed the text / the script "
               "has a non-Keep entry / the spacing changed; distinct by (stage, input)."),
@@ -1275,8 +1283,9 @@ def check(run: common.Run):
         unmodelled=["black.format_str (line wrapping)", "compactify.format_code",
                     "fixes.fix_line_lengths: statement ranges, elif handling, what black does between dedent and re-indent "
                     "(the dedent/re-indent frame IS modelled: FrameModel.v)",
-                    "processing._do_rewrite / _replace_nodes; the b/r/f prefix adjustment inside "
-                    "_substitute_original_strings (spellings compared modulo prefix letters when it fires)",
+                    "processing._do_rewrite / _replace_nodes; of the b/r/f prefix adjustment inside "
+                    "_substitute_original_strings the str.lstrip('brfBRF') + concatenation (a table built by the harness "
+                    "with the same expression; the exact text written is compared)",
                     "difflib.Differ (abstracted: the theorems hold for every script)",
                     "core.get_charnos / walk_sequence / _is_stdlib feeding fix_import_spacing (inputs of the model)",
                     "textwrap.dedent / indent"],
@@ -1347,6 +1356,50 @@ def restore_family():
     return res
 
 
+PREFIX_GROUPS = [
+    # the value a: quote styles x prefixes u / r / f / rf, upper and lower case, triple quotes
+    ["'a'", '"a"', "r'a'", 'R"a"', "u'a'", 'U"a"', "'''a'''", 'r"""a"""', "f'a'", 'F"a"', "rf'a'"],
+    # backslash + d: raw against escaped spellings
+    ['r"\\d"', '"\\\\d"', "r'\\d'", "'\\\\d'", "R'\\d'", "'''\\\\d'''", "r'''\\d'''"],
+    # two blanks (the round-5 alarm: u"  " / r'  ' next to triple-quoted literals)
+    ['"  "', 'u"  "', "r'  '", "'  '", "R'  '", 'r"""  """', "U'''  '''"],
+    # backslash + n: pasting the raw body under no prefix gives a line break (repair c664901)
+    ["r'\\n'", "'\\\\n'", 'R"\\n"', '"\\\\n"', "u'\\\\n'"],
+    # bytes (no str constant: the step must leave them alone whatever black does to the prefix)
+    ["b'a'", 'B"a"', "rb'a'", 'Rb"a"', "bR'a'", 'br"a"'],
+]
+
+
+def prefix_family(quick=False):
+    """Deterministic module family for the prefix adjustment of the quote-restoration step (repair c664901):
+    two spellings of ONE value under different prefixes / quote styles (r"a" vs 'a', r"\\d" vs "\\\\d", u"  " vs
+    r'  ', triple quoted ones), one of them the most common or the first seen, in statements black re-spells
+    (single quotes, upper-case prefixes, u).  Every unordered pair of every group; majority and tie variant
+    (quick tier: alternating); every third module has the literals in a nested statement."""
+    res = []
+    k = 0
+    for group in PREFIX_GROUPS:
+        for i, j in itertools.combinations(range(len(group)), 2):
+            a, b = group[i], group[j]
+            k += 1
+            variants = [(a, b, b), (b, a, None)]
+            if quick:
+                variants = variants[k % 2:][:1]
+            for s1, s2, s3 in variants:
+                third = f"print(W, {s3})\n" if s3 else ""
+                if k % 3:
+                    res.append(f"import sys\n\nW = sys.argv\nprint(W, {s1}, {s2})\n{third}print(W, 'single quoted')\n")
+                else:
+                    res.append(f"import sys\n\nW = sys.argv\n\n\ndef _p{k}(a):\n    if a:\n        return [a, {s1}, {s2}]\n"
+                               f"    return [{s3 or s1}, 'single']\n\n\nprint(_p{k}(W))\n")
+    # the round-5 alarm (thorough tier, generated module): the first-seen spelling u"  " cannot take the r of the
+    # node it would replace (ru"  " is no literal), the repaired step leaves r"  " alone
+    res.append('import sys\n\nW = sys.argv\nprint(W)\n\nprint(W, \'\'\'\n\n  \\tbc\na       \\ta     \\tx1\n  \\tde f \'\'\')\n\n\n'
+               'if W:\n  print(u"  ")\nelif len(W) > 3:\n  print("""\n\n  \\tde f  \\tbc      \\tde f\n\n    de f\na\n    bc""")\n'
+               "else:\n  print(r'  ')\n")
+    return res
+
+
 def continued_literal_family():
     """Deterministic module family (seed C11-c): single-quoted str / bytes / f-string literals continued over several
     lines with backslash-newline, the continuation lines indented by 0..14 blanks (the blanks are CONTENT), with no
@@ -1390,9 +1443,39 @@ def _is_literal_of(text: str, value) -> bool:
             and tree.body[0].value.value == value)
 
 
+QUOTES = ("'", '"')
+
+
+def _pre(text: str) -> str:
+    """the characters of a spelling before its first quote character (the loop of processing.py:183-195)"""
+    for k, ch in enumerate(text):
+        if ch in QUOTES:
+            return text[:k]
+    return text
+
+
+def _mods(text: str) -> set:
+    return {ch.lower() for ch in _pre(text)} & set("brf")
+
+
+def _literal_eval(text: str):
+    """(True, value) = what ast.literal_eval yields, (False, None) = it raises what the code catches"""
+    import warnings
+    with warnings.catch_warnings():
+        warnings.simplefilter("ignore")     # '\d' pasted under no prefix: invalid escape sequence
+        try:
+            return True, ast.literal_eval(text)
+        except (ValueError, SyntaxError, TypeError):
+            return False, None
+
+
 def restore_facts(mods, original_source, new_source, repl, out):
-    """Inputs of RestoreModel.restore for one real call, gathered with the code's own helpers (core.parse is
-    cached, so the node objects are the ones the call used), and what the call did to every node."""
+    """Inputs of RestoreModel.restore_write for one real call, gathered with the code's own helpers (core.parse
+    is cached, so the node objects are the ones the call used), and what the call did to every node.  Values
+    are interned by (type, repr) -- a bytes / int value literal_eval may yield is another value --, spellings by
+    their text; the table of pasted spellings holds CPython's verdict about prefix + spelling.lstrip("brfBRF")
+    for every original spelling that is a literal on its own and every prefix a node of the new source asks
+    for.  The observation is the exact text written."""
     core = mods["core"]
     try:
         new_ast, orig_ast = core.parse(new_source), core.parse(original_source)
@@ -1403,31 +1486,61 @@ def restore_facts(mods, original_source, new_source, repl, out):
     vals, texts = {}, {}
 
     def vid(v):
-        return vals.setdefault(v, len(vals))
+        return vals.setdefault((type(v).__name__, repr(v)), len(vals))
 
     def tid(s):
         return texts.setdefault(s, len(texts))
-    origs = [(vid(v), tid(s), _is_literal_of(s, v)) for v, s in on]
-    news = [(vid(v), tid(s), _is_literal_of(s, v)) for v, s, _ in nn]
+
+    def evid(s):
+        ok, v = _literal_eval(s)
+        return vid(v) if ok else None
+
+    def codes(s):
+        return [ord(c) for c in s]
+    origs = [(vid(v), tid(s), _is_literal_of(s, v), codes(_pre(s)), evid(s)) for v, s in on]
+    news = [(vid(v), tid(s), _is_literal_of(s, v), codes(_pre(s))) for v, s, _ in nn]
+    prefixes = sorted({"".join(sorted(_mods(s), key="frb".index)) for _, s, _ in nn})
+    adj, seen = [], set()
+    for v, s in on:
+        if s in seen or not _is_literal_of(s, v):
+            continue
+        seen.add(s)
+        for pfx in prefixes:
+            w = pfx + s.lstrip("brfBRF")
+            adj.append((tid(s), codes(pfx), tid(w), evid(w)))
     all_in = all(s in original_source for _, s, _ in nn)
-    obs = []
+    obs, n_prefix_change = [], 0
     for v, s, node in nn:
         r = (repl or {}).get(node)
         if r is None:
-            obs.append([])
+            obs.append(None)
             continue
         r = str(r)
-        # the b/r/f prefix adjustment is not modelled: compare modulo prefix letters
-        match = [t for (v2, t) in on if v2 == v and t.lstrip(PREFIX_CHARS) == r.lstrip(PREFIX_CHARS)]
-        obs.append(sorted({tid(t) for t in match}) or [10 ** 6])
-    return {"all_in": all_in, "origs": origs, "news": news, "obs": obs, "original": original_source,
-            "new": new_source, "out": out, "replaced": sum(1 for o in obs if o)}
+        obs.append(tid(r))
+        n_prefix_change += _mods(r) != _mods(s) or _pre(r) != _pre(s)
+    return {"all_in": all_in, "origs": origs, "news": news, "adj": adj, "obs": obs, "original": original_source,
+            "new": new_source, "out": out, "replaced": sum(1 for o in obs if o is not None),
+            "mods_differ": any(_mods(s) != _mods(t) for v, s, _ in nn for v2, t in on if v2 == v),
+            "prefix_changed": n_prefix_change}
 
 
 def restore_case(f) -> str:
-    def trip(x):
-        return f"({x[0]}, {x[1]}, {gbool(x[2])})"
-    return (f"({gbool(f['all_in'])}, {glist(f['origs'], trip)}, {glist(f['news'], trip)}, {glist(f['obs'], glist)})")
+    def gopt(x):
+        return "None" if x is None else f"(Some {x})"
+
+    def gcodes(x):
+        return glist([f"{c}%N" for c in x])
+
+    def orig(x):
+        return f"({x[0]}, {x[1]}, {gbool(x[2])}, {gcodes(x[3])}, {gopt(x[4])})"
+
+    def new(x):
+        return f"({x[0]}, {x[1]}, {gbool(x[2])}, {gcodes(x[3])})"
+
+    def entry(x):
+        return f"({x[0]}, {gcodes(x[1])}, {x[2]}, {gopt(x[3])})"
+    return (f"({gbool(f['all_in'])}, {glist(f['origs'], orig)}, {glist(f['news'], new)}, {glist(f['adj'], entry)}, "
+            f"{glist(f['obs'], gopt)})")
 
 
 def _is_fstring_of(mods, text: str, key: str) -> bool:
